@@ -324,6 +324,20 @@ Definition c15_show_checkb (id : Z) (before after : wtree) : bool :=
                     | _, _ => false
                     end) (sub_ids before).
 
+(* tickit_window_hide and the focus links: the parent's link is dropped exactly when it names the
+   hidden window -- whatever that window holds --; nothing else changes, the window is invisible *)
+Definition c15_hide_checkb (id : Z) (before after : wtree) : bool :=
+  zlist_eqb (sub_ids before) (sub_ids after) &&
+  forallb (fun x => match t_find x before, t_find x after with
+                    | Some a, Some b =>
+                      Bool.eqb (w_focused (t_info a)) (w_focused (t_info b)) &&
+                      fchild_eqb (if fchild_eqb (t_parent_id id before) (Some x) && fchild_eqb (w_fchild (t_info a)) (Some id)
+                                  then None else w_fchild (t_info a))
+                                 (w_fchild (t_info b)) &&
+                      Bool.eqb (w_vis (t_info b)) (if x =? id then false else w_vis (t_info a))
+                    | _, _ => false
+                    end) (sub_ids before).
+
 (* C15: a flush (which applies the queued restacks) moves no focus: every window keeps its
    focused-child link and its focused flag *)
 Definition c15_links_kept_checkb (before after : wtree) : bool :=
